@@ -71,7 +71,7 @@ func (g gridURL) key(cs bool) string {
 var (
 	gSchemes  = []string{"http", "https", "HTTP"}
 	gHosts    = []string{"example.com", "Example.COM", "example.com:8080", "other.org"}
-	gPaths    = []string{"", "/", "/a", "/a/", "/A", "/a/b", "/a/./b", "/a/c/../b", "/c/..", "/a/b/"}
+	gPaths    = []string{"", "/", "/a", "/a/", "/A", "/a/b", "/a/./b", "/a/c/../b", "/c/..", "/a/b/", "/../a", "/a/../../b"}
 	gQueries  = []string{"", "?x=1", "?x=1&y=2", "?y=2&x=1", "?x=1&x=2", "?x=2&x=1", "?x=1&x=1", "?x=2", "?x=2&y=1", "?a=1&b=2&c=3", "?a=2&b=3&c=1"}
 	gFrags    = []string{"", "#f"}
 	subScheme = []string{"http", "HTTPS"}
@@ -213,6 +213,28 @@ func init() {
 			}
 			c14GridPair(c, a, b, c.R.Bool())
 		}
+		// letters beyond ASCII in the path, in two letter cases, combined with a trailing slash / dot segment /
+		// fragment (outside the model's URL grammar: judged by the oracle, which folds like strings.EqualFold)
+		for _, base := range []string{"https://example.com/users/οδυσσέας", "https://example.gr/Νίκος", "https://example.com/straße/ñandú"} {
+			up := strings.ToUpper(base[len("https://"):])
+			variants := []string{base, base + "/", "https://" + up, "http://" + up + "/", base + "/.", base + "#f", "HTTPS://" + up + "/x/.."}
+			for _, a := range variants {
+				for _, b := range variants {
+					for _, cs := range []bool{false, true} {
+						want := iriEq(a, b) && (!cs || strings.EqualFold(a[:strings.Index(a, ":")], b[:strings.Index(b, ":")]))
+						got, pan := implEquals(a, b, cs)
+						in := map[string]interface{}{"op": "iriEquals", "a": hx([]byte(a)), "b": hx([]byte(b)), "cs": cs, "as": a, "bs": b, "oracleOnly": true}
+						c.Count(in, a != b)
+						c.Tag("non-ascii-path")
+						if pan != "" {
+							c.Fail("C14/panic", pan, in)
+						} else if got != want {
+							c.Fail("C14/grid", fmt.Sprintf("Equals(%q, %q, %v) = %v but host, cleaned path and query agree = %v (letters compared as strings.EqualFold does)", a, b, cs, got, want), in)
+						}
+					}
+				}
+			}
+		}
 		// every pair of short strings over the characters the textual fast path looks at
 		var short []string
 		short = append(short, "")
@@ -309,6 +331,18 @@ func init() {
 			if gb, ok := parseGrid(b); ok {
 				if want := ga.key(in.Cs) == gb.key(in.Cs); want != got {
 					return fmt.Sprintf("Equals = %v, keys equal = %v", got, want)
+				}
+				return ""
+			}
+		}
+		// outside the grid grammar (letters beyond ASCII): the oracle that folds like strings.EqualFold
+		if ia, ib := strings.Index(a, ":"), strings.Index(b, ":"); ia > 0 && ib > 0 {
+			if _, oka := refIRIKey(a); oka {
+				if _, okb := refIRIKey(b); okb {
+					want := iriEq(a, b) && (!in.Cs || strings.EqualFold(a[:ia], b[:ib]))
+					if want != got {
+						return fmt.Sprintf("Equals = %v, host/path/query agree = %v", got, want)
+					}
 				}
 			}
 		}
